@@ -152,6 +152,16 @@ pub fn check_inprocess(bytes: &[u8], ordering: &Option<Ordering>) -> Result<Seen
     if !do_eval {
         return Ok(seen);
     }
+    if reference.ast.has_fix() && !gen::syntactically_monotone(&reference.ast) {
+        // "formulas whose fixed points converge": membership in the domain is decided by the
+        // reference semantics (Kleene iteration on truth tables), never by how the implementation
+        // happens to behave on a divergent iteration (hang, diagnostic, abort are all outside)
+        let names = rlex::identifiers(&reference.tokens);
+        if crate::rsem::table(&reference.ast, &names).is_err() {
+            seen.fp_limit_hit = true;
+            return Ok(seen);
+        }
+    }
     rsbdd::bdd::verif_hooks::set_fp_iteration_limit(limit);
     let r = util::catch(|| pf.eval());
     rsbdd::bdd::verif_hooks::set_fp_iteration_limit(None);
